@@ -61,6 +61,8 @@ func c10Gen(g *G) {
 	// content-related message is acknowledged under the id it came with
 	g.Emit("c10.run o,o I9223372036854775801;g0;w1;u;a0;c(u,x);j;g1;w2;n5;a1", "server-msgid-range")
 	g.Emit("c10.run o,o I18446744073709547619;g0;w1;u;c(x,a0);j;I7;g1;w2;u;a1", "server-msgid-range")
+	// acknowledgement bookkeeping across nested and successive containers: every small shape, enumerated (c10nest.go)
+	c10NestGen(g)
 	n := g.N(60, 1500)
 	for i := 0; i < n; i++ {
 		if r.Intn(3) == 0 {
